@@ -17,6 +17,7 @@ mod search_frames;
 mod c12b;
 mod c12c;
 mod c06;
+mod c06c;
 mod c07;
 mod c08;
 mod c05b;
@@ -62,6 +63,8 @@ fn main() {
     all.extend(c12b::witnesses());
     all.extend(c12c::witnesses());
     all.extend(c06::witnesses());
+    all.extend(c06c::witnesses());
+    all.extend(c06c::open_finding_witnesses());
     all.extend(c07::witnesses());
     all.extend(c08::witnesses());
     all.extend(c05b::witnesses());
